@@ -419,4 +419,44 @@ theorem row_entries_are_eval_and_derivative {α : Type} [Field α] {O : Ops α} 
   rw [rpn_correct O I hI env vals ndx hv s.toExpr]
   exact congrArg some (reverseSd_is_derivative L env ops hwf hcons fn hden hdom d hsd v s hj)
 
+
+/-! ## 7. the IF_ELSE opcode is lazy in the value of the branch that is not selected -/
+
+/-- **ifElse_opcode_lazy.** The C++ stack machine's IF_ELSE (`if (arg == 1) res = arg1; else res = arg2;`) returns the
+selected operand whatever the other operand is — in particular when the unselected branch evaluated to NaN or ±inf.
+(An arithmetic select `arg*arg1 + (1-arg)*arg2` contradicts this lemma: `0 * NaN` is not `0` in IEEE arithmetic.) -/
+theorem ifElse_opcode_lazy {α : Type} (O : Ops α) (vals : Nat → α) (c t e x : α) (r : List α) :
+    (O.isOne c = true → step O vals (e :: t :: c :: r) codeIfElse = some (t :: r) ∧
+      step O vals (x :: t :: c :: r) codeIfElse = some (t :: r)) ∧
+    (O.isOne c = false → step O vals (e :: t :: c :: r) codeIfElse = some (e :: r) ∧
+      step O vals (e :: x :: c :: r) codeIfElse = some (e :: r)) := by
+  refine ⟨fun h => ?_, fun h => ?_⟩ <;> simp [step_ifElse, h]
+
+/-- the same for whole programs: replacing the program of the unselected branch by ANY program that pushes one value
+does not change what `evalRpn` returns -/
+theorem evalRpn_ifElse_lazy {α : Type} (O : Ops α) (vals : Nat → α) {rc rt re re' : List Int} {c t e e' : α}
+    (hc : Pushes O vals rc c) (ht : Pushes O vals rt t) (he : Pushes O vals re e) (he' : Pushes O vals re' e')
+    (h : O.isOne c = true) :
+    evalRpn O vals (rc ++ rt ++ re ++ [codeIfElse]) = some t ∧
+    evalRpn O vals (rc ++ rt ++ re' ++ [codeIfElse]) = some t := by
+  have h1 := pushes_ifElse hc ht he []
+  have h2 := pushes_ifElse hc ht he' []
+  simp only [h, if_true] at h1 h2
+  exact ⟨by unfold evalRpn; rw [h1]; rfl, by unfold evalRpn; rw [h2]; rfl⟩
+
+/-- and for trees: the value of `if_else(c, t, e)` is the value of the selected branch -/
+theorem eval_ifElse_selected {α : Type} (O : Ops α) (env : Env α) (c t e : Expr) :
+    (O.isOne (eval O env c) = true → eval O env (.ifElse c t e) = eval O env t) ∧
+    (O.isOne (eval O env c) = false → eval O env (.ifElse c t e) = eval O env e) := by
+  refine ⟨fun h => ?_, fun h => ?_⟩ <;> simp [eval, h]
+
+/-!
+Remark (known finding `jacobian-nan-unselected-branch`, found by the oracle on the implementation). The value semantics
+above is lazy, but `reverse_sd` differentiates BOTH branches and combines them with `if_else(c, der, 0)` / `if_else(c, 0, der)`
+factors: over a field `0 · x = 0` and `reverseSd_is_derivative` holds, in IEEE arithmetic `0 · NaN = NaN`, so at a point
+where the unselected branch's partial derivative is NaN/inf the compiled Jacobian entry is NaN although the residual is
+right. NaN is outside the field model (`LawfulOps`); the defect is recorded in `known_findings.d/C15.json` with its
+minimal input, not covered by a theorem.
+-/
+
 end Wntr.Aml
